@@ -10,6 +10,14 @@ what the resolver is handed, as a function of what the image configuration and t
   `GetRepositoryIndexes` returns one index per line in that order and that is the order of the
   `[]NamedIndex` handed to `NewPkgResolver` (hence of the candidates of equal rank inside `nameMap`).
 
+* ROUNDS (C14): `ResolveWorld` of one architecture = load the own indexes, look every sibling's indexes up,
+  compute the cross-architecture difference, resolve.  `Wiring μ` says what an `APK` value carries from one
+  `ResolveWorld` to the next (`μ`) and what a sibling hands to the comparison; today's wiring carries nothing
+  (`wiringToday : Wiring Unit`, tied to the regenerated write inventory of `*APK` in Proofs/Lemmas/GlueRounds.lean).
+  A history = rounds (a repository state and a schedule of `load` / `finish` events — arch after arch, or any
+  interleaving of the goroutines of `BuildPackageLists`), the memories are carried from round to round.
+  `freshAnswer` is what the driver ops `g.*` answer for a state.
+
 Core only; linked into the driver (ops `g.*` of `Driver/Resolver.lean`).
 -/
 import Apko.Model.Resolver
@@ -32,5 +40,100 @@ def indexOf (lines : List Text) (u : Universe) (l : Text) : Option Index :=
 lines; `lines` / `u` list the repositories in the order written (build, runtime, extra build, extra runtime) -/
 def indexesOf (lines : List Text) (u : Universe) : Universe :=
   (sortedSet lines).filterMap (indexOf lines u)
+
+/-! ## rounds over one `MultiArch` value -/
+
+/-- a repository state: what the configured repositories publish NOW, per architecture (the keys are the
+keys of `ByArch`; they do not change between rounds — `tie_byArchAssignments`) -/
+abbrev Repos := List (Text × Universe)
+
+/-- `a.GetRepositoryIndexes`: the indexes of architecture `a` in the current state (the index cache answers by
+mtime / ETag: an honest mtime / ETag is C19's assumption, not modelled here) -/
+def load (repos : Repos) (a : Text) : Universe := (lookupT repos a).getD []
+
+/-- one architecture's answer for a repository state, computed from scratch — what a fresh process answers, and
+what the driver ops `g.resolve` / `g.avail` / `g.corr` compute -/
+def freshAnswer (cfg : Universe → Cfg) (w : List Text) (repos : Repos) (self : Text) : Res Resolution :=
+  resolve (cfg (load repos self)) w (disqualifyDifference repos self)
+
+/-- what an `APK` value remembers between two `ResolveWorld` calls (`μ`), and how the sibling lookup uses it -/
+structure Wiring (μ : Type) where
+  /-- a new `APK` -/
+  init : μ
+  /-- what `ResolveWorld` stores in its receiver after loading its own indexes -/
+  remember : μ → Universe → μ
+  /-- what a sibling hands to the comparison, given its memory and what a fresh load of its indexes returns -/
+  sibling : μ → Universe → Universe
+
+/-- today's `ResolveWorld`: nothing is stored (`tie_resolveWorldReachWrites`), the sibling lookup is the fresh
+load `otherAPK.GetRepositoryIndexes` (`tie_resolveWorldLoop`, `sibling_lookup_is_own_load`) -/
+def wiringToday : Wiring Unit := { init := (), remember := fun _ _ => (), sibling := fun _ fresh => fresh }
+
+/-- the wiring of the reviewed change "siblings pick up the indexes the architecture last resolved against":
+an `APK` remembers the index list of its last `ResolveWorld`; a sibling hands that list out when there is one -/
+def wiringRemembering : Wiring (Option Universe) :=
+  { init := none, remember := fun _ own => some own, sibling := fun m fresh => m.getD fresh }
+
+def memOf {μ} (W : Wiring μ) (mem : List (Text × μ)) (a : Text) : μ := (lookupT mem a).getD W.init
+
+/-- the `allArchs` map of `ResolveWorld`: the architecture's own index objects under its own key, the sibling
+lookup under every other key -/
+def allArchs {μ} (W : Wiring μ) (mem : List (Text × μ)) (repos : Repos) (self : Text) (own : Universe) : Repos :=
+  repos.map fun e => (e.1, if e.1 = self then own else W.sibling (memOf W mem e.1) e.2)
+
+/-- the two observable halves of one `ResolveWorld` call -/
+inductive Ev where
+  /-- `indexes, err := a.GetRepositoryIndexes(…)` (and whatever the wiring stores) -/
+  | load (a : Text)
+  /-- the loop over `a.ByArch` and the resolution -/
+  | finish (a : Text)
+deriving Repr, DecidableEq
+
+structure RState (μ : Type) where
+  /-- per `APK` value; survives the round -/
+  mem : List (Text × μ)
+  /-- the local `indexes` of the calls in flight -/
+  own : List (Text × Universe)
+  /-- the answers of this round, newest first -/
+  out : List (Text × Res Resolution)
+
+def step {μ} (W : Wiring μ) (cfg : Universe → Cfg) (w : List Text) (repos : Repos) (s : RState μ) : Ev → RState μ
+  | .load a =>
+    let o := load repos a
+    { s with mem := (a, W.remember (memOf W s.mem a) o) :: s.mem, own := (a, o) :: s.own }
+  | .finish a =>
+    match lookupT s.own a with
+    | none => s
+    | some o => { s with out := (a, resolve (cfg o) w (disqualifyDifference (allArchs W s.mem repos a o) a)) :: s.out }
+
+/-- one round: the calls of the schedule against one repository state; every call of the round has returned
+when the round ends (`BuildPackageLists` waits for its goroutines) -/
+def runRound {μ} (W : Wiring μ) (cfg : Universe → Cfg) (w : List Text) (mem : List (Text × μ)) (repos : Repos)
+    (sched : List Ev) : RState μ :=
+  sched.foldl (step W cfg w repos) ⟨mem, [], []⟩
+
+/-- a history on one `MultiArch` value: the answers of every round -/
+def runHistory {μ} (W : Wiring μ) (cfg : Universe → Cfg) (w : List Text) :
+    List (Text × μ) → List (Repos × List Ev) → List (List (Text × Res Resolution))
+  | _, [] => []
+  | mem, (repos, sched) :: rest =>
+    let s := runRound W cfg w mem repos sched
+    s.out :: runHistory W cfg w s.mem rest
+
+/-- arch after arch: `Contexts[a].BuildPackageList` one at a time -/
+def sequential (order : List Text) : List Ev := order.flatMap fun a => [.load a, .finish a]
+
+/-- the answers of a round as a function of the CURRENT state and the schedule alone -/
+def roundAnswersGo (cfg : Universe → Cfg) (w : List Text) (repos : Repos) :
+    List Ev → List Text → List (Text × Res Resolution) → List (Text × Res Resolution)
+  | [], _, out => out
+  | .load a :: es, loaded, out => roundAnswersGo cfg w repos es (a :: loaded) out
+  | .finish a :: es, loaded, out =>
+    if loaded.contains a then roundAnswersGo cfg w repos es loaded ((a, freshAnswer cfg w repos a) :: out)
+    else roundAnswersGo cfg w repos es loaded out
+
+def roundAnswers (cfg : Universe → Cfg) (w : List Text) (repos : Repos) (sched : List Ev) :
+    List (Text × Res Resolution) :=
+  roundAnswersGo cfg w repos sched [] []
 
 end Apko.Glue
